@@ -80,7 +80,7 @@ def feed(ops):
     return "%d\n" % len(ops) + "".join("%d %d\n" % o for o in ops)
 
 
-def compare_batch(ctx, ops, tag, stats):
+def compare_batch(ctx, ops, tag, stats, only=None):
     inp = feed(ops)
     rc1, out1, err1 = common.run([common.impl_bin("intdrv")], input=inp, timeout=600)
     rc2, out2, err2 = common.run([common.model_bin(), "int"], input=inp, timeout=1200)
@@ -110,6 +110,8 @@ def compare_batch(ctx, ops, tag, stats):
         spec = spec_line(ops[i], ops[j])
         for c, name in enumerate(COLS):
             impl_v, model_v, spec_v = f1[2 + c], f2[2 + c], spec[c]
+            if only is not None and name not in only:
+                continue
             if impl_v != model_v:
                 stats["disagreements"] += 1
                 case = {"op": name, "a": {"u": ops[i][0], "signed": ops[i][1], "ival": ival(ops[i])},
